@@ -527,6 +527,7 @@ structure ReplayResult where
   definedBitsChecked : Nat := 0
   dump : List (String × String) := []       -- all signal values at the first failing CHECK
   firstSetLine : Nat := 0                   -- vector line of the first SET (0 = none)
+  metaPresent : Bool := false               -- some signal or variable of the design held a metavalue at the first failing CHECK
 
 /-- replay the vector stream on the elaborated design -/
 def replay (k : Kernel) (top : Entity) (hdr : TbHeader) (items : List (Nat × VecItem)) : Except String ReplayResult := do
@@ -582,7 +583,14 @@ def replay (k : Kernel) (top : Entity) (hdr : TbHeader) (items : List (Nat × Ve
         let pat ← (valOfText ty v).mapError (s!"vector line {ln}: " ++ ·)
         res := { res with checks := res.checks + 1, definedBitsChecked := res.definedBitsChecked + (v.toList.filter (fun c => c == '0' || c == '1')).length }
         if !stdMatchVal cur pat then
-          if res.fails.isEmpty then res := { res with dump := st.cur.toList.map fun (n, v) => (n, v.toText) }
+          if res.fails.isEmpty then
+            let hasMeta := fun (v : Val) => match normVal v with
+              | .sl a => a.to01?.isNone
+              | .lit a => a.any (·.to01?.isNone)
+              | .mem ws => ws.any (·.any (·.to01?.isNone))
+              | _ => false
+            res := { res with dump := st.cur.toList.map (fun (n, v) => (n, v.toText)),
+                              metaPresent := st.cur.toList.any (fun (_, v) => hasMeta v) || st.vars.any (·.any (fun (_, v) => hasMeta v)) }
           res := { res with fails := res.fails ++ [{ line := ln, sig := s, expected := v, got := (retag ty cur).toText, timeFs := now, hard := hardMismatch cur pat }] }
       | _, _ => throw s!"vector line {ln}: '{s}' is not a port of the top entity"
   st ← applyExt k st pending
